@@ -40,10 +40,10 @@ def _case(draw, worlds):
         'in_hook': draw(st.booleans()), 'accum': draw(st.sampled_from([1, 1, 2])),
         'N': draw(st.integers(1, 4)), 'style': draw(gens.style_strategy()),
         'hp': {'factor_update_steps': draw(st.integers(1, 3)), 'inv_update_steps': draw(st.integers(1, 3)),
-               'damping': draw(st.sampled_from([0.003, 0.01, 0.03, 0.1, 1.0])),
+               'damping': draw(gens.table_or_const([0.003, 0.01, 0.03, 0.1, 1.0])),
                'factor_decay': draw(st.sampled_from([0.95, 0.5, 0.9, 1.0])),
                'kl_clip': draw(st.sampled_from([1e30, 1e-3, 1e-5, 1e-2])), 'lr': draw(st.sampled_from([0.1, 1.0]))},
-        'steps': draw(st.integers(1, 4)), 'data_seed': draw(st.integers(0, 10 ** 5)),
+        'steps': draw(st.integers(1, 4)), 'data_seed': draw(st.integers(0, 10 ** 5)), 'zero_to_none': draw(st.booleans()),
         'A': draw(placement(W, method, prediv)), 'B': draw(placement(W, method, prediv)),
         'sched1': draw(st.lists(st.integers(0, 63), max_size=200)),
         'sched2': draw(st.lists(st.integers(0, 63), min_size=20, max_size=300)),
@@ -62,7 +62,7 @@ class C02(Prop):
     id = 'C02'
     title = 'Distributed work placement is semantically transparent'
     rule = ('Hypothesis draws W in {1,2,3,4,6,8} (thorough adds 12,16), a model of 1-4 layers with unequal factor sizes, method x pre-division, '
-            'hook/no-hook factor updates, accumulation 1-2, intervals (1-3,1-3), equal per-rank batches 1-4, 1-4 steps with SGD updates, '
+            'hook/no-hook factor updates, accumulation 1-2, intervals (1-3,1-3), damping constant or table-driven, zero_grad with set_to_none on/off, equal per-rank batches 1-4, 1-4 steps with SGD updates, '
             'and TWO placements (divisor k given as float or enum, colocate, COMPUTE/MEMORY heuristic, bucket cap in {0, 10 B, 120 B, 400 B, 25 MB}, '
             'symmetry-aware) plus three drawn schedules. The real KFACPreconditioner runs on W simulated ranks (vkit/simdist) whose '
             'interleaving and async buffer read/write timing are drawn. Relations: (1) all ranks bit-identical after every step; (2) placement '
@@ -264,7 +264,8 @@ class C02(Prop):
         model = kmodel.build_model(case['spec'])
         mods = dict(model.named_modules())
         eps = refkfac.EPS[torch.float32]
-        lam = case['hp']['damping']
+        dmp = case['hp']['damping']
+        lam = min(dmp['table']) if isinstance(dmp, dict) else dmp      # smallest damping of the schedule: upper bound of the conditioning
         cum = 0.0
         worst = 0.0
         informative = False
